@@ -1,14 +1,15 @@
 from cfg.common import FLOAT_ASSUMPTION, NOTE_COMMON
+from cfg.kernels_pre import regen as regen_kernels, KERNEL_THEOREMS, KERNEL_TRUSTED, KERNEL_ASSUMPTION
 from cfg.train_kernels_pre import (regen as regen_train_kernels, TRAIN_KERNEL_THEOREMS_FOR, TRAIN_KERNEL_TRUSTED,
                                    TRAIN_KERNEL_ASSUMPTION)
 
 PROP = {
     'anchors': [('train/set_speed_train_sim.rs', 'solve_step'), ('train/set_speed_train_sim.rs', 'solve_required_pwr'), ('train/set_speed_train_sim.rs', 'mean'), ('train/set_speed_train_sim.rs', 'dt')],
     'blocks': ['train'],
-    'pre': [regen_train_kernels],
-    'trusted_extra': [TRAIN_KERNEL_TRUSTED],
-    'proof_modules': ['C14', 'TrainKernels'],
-    'namespaces': ['Altrios.Proofs.C14', 'Altrios.Proofs.TrainKernels'],
+    'pre': [regen_train_kernels, regen_kernels],
+    'trusted_extra': [TRAIN_KERNEL_TRUSTED, KERNEL_TRUSTED],
+    'proof_modules': ['C14', 'TrainKernels', 'Kernels'],
+    'namespaces': ['Altrios.Proofs.C14', 'Altrios.Proofs.TrainKernels', 'Altrios.Proofs.Kernels'],
     'required_theorems': [
         'Altrios.Proofs.C14.C14_power',
         'Altrios.Proofs.C14.C14_clip',
@@ -17,11 +18,11 @@ PROP = {
         'Altrios.Proofs.C14.C14_accepted_nonneg',
         'Altrios.Proofs.C14.C14_walk_samples_nonneg',
         'Altrios.Proofs.C14.C14_follows_trace',
-    ] + TRAIN_KERNEL_THEOREMS_FOR['C14'],
+    ] + TRAIN_KERNEL_THEOREMS_FOR['C14'] + KERNEL_THEOREMS,
     'nontrivial_stats': ['train.ss.clipped', 'train.ss.unclipped'],
     'rule': 'each evaluation is one real SetSpeedTrainSim step (whole solve_step and its parts) on traces with irregular time '
             'stamps, stop-and-go and both clips saturated; non-trivial = accepted steps (clipped and unclipped counted separately)',
-    'assumptions': [FLOAT_ASSUMPTION] + [TRAIN_KERNEL_ASSUMPTION],
+    'assumptions': [FLOAT_ASSUMPTION] + [TRAIN_KERNEL_ASSUMPTION, KERNEL_ASSUMPTION],
 }
 
 TEXT = {
